@@ -261,6 +261,10 @@ def gen_plan(r, index, tier):
             if st[0] in ('deliver', 'arm', 'close', 'poll') and len(st) > 1:
                 st[1] = ti
     mode = r.choice(['history', 'generators', 'generators', 'threads', 'threads'])
+    if mode == 'threads' and any(t.get('nospec') for t in tasks):
+        # calls that run into the recursion limit stay out of the baton-passed threads: the scheduler's trace
+        # function runs on the same stack, and a thread that overflows inside it never hands the baton back
+        mode = 'generators'
     sched = {'mode': mode}
     n = len(tasks)
     if mode == 'history':
